@@ -59,6 +59,9 @@ type commonShape struct {
 	// Incs has one entry per incremental snapshot following the newest full
 	// snapshot; the value is the number of WAL segments in it (1..2).
 	Incs []int
+	// StartIdx shifts the Raft indexes of the snapshots (they are StartIdx+10, +20, ...): with 80 the
+	// directory names cross a digit boundary (1-90-.., 1-100-..), so name order and index order differ.
+	StartIdx uint64
 }
 
 // commonShapes returns the standard shape list: full only; full + 1..2 WALs;
@@ -504,7 +507,7 @@ func commonBuildStore(t *testing.T, root string, sh commonShape) *commonBuilt {
 	store.fatalFn = nil
 	defer store.Close()
 
-	idx := uint64(0)
+	idx := sh.StartIdx
 	nextID := func(term uint64) (string, uint64) {
 		idx += 10
 		return fmt.Sprintf("%d-%d-%013d", term, idx, seq*1000+idx), idx
